@@ -91,6 +91,12 @@ CHECKS = {
             'whole import / from-import / star-import statements resolve alike under three hypotheses, each shown necessary by a witness; transform_path_to_dotted characterised and its round trip proved; refutation for the pre-fix string-prefix rule. '
             'Tied to /repo per run: generated directory trees (modules, packages, namespace dirs, clashes, several roots) x importing files x import forms: Script.infer/goto(follow_imports) vs the jedi model, real CPython imports in a subprocess vs the importlib model, jedi vs CPython directly, and the derived dotted name of every file.',
             'Coq kernel + vm_compute; .pyi stubs in the walk, pkgutil-style namespaces, __all__ and path-less scripts are outside the model.'),
+    'C18': ('Coq proof that get_context is the innermost enclosing definition, parent() chains are the lexical nesting and full_name is the qualname, on definition trees of any depth + vm_compute correspondence at every position of generated and corpus files',
+            'Theorems (12, closed): on a well-formed file of any nesting depth a Gallina transcription of Script.get_context (leaf lookup, previous-leaf adjustment, header special case, create_context header rule, column loop) returns the innermost def/class whose extent contains the position '
+            '(strict body reading and header/extent reading stated separately, with three refutation witnesses showing the column, async and lambda-in-class provisos are necessary); iterating parent() visits exactly the lexically enclosing defs/classes then the module; '
+            'qualified names = module names ++ __qualname__ when all enclosing scopes are classes (refutation for function-local definitions). Tied to /repo per run: the definition tree with extents is extracted with ast (independent of parso) from generated programs and corpus files, '
+            'get_context at every (line, column) / every token, parent() chains of all get_names(all_scopes=True), full_name vs module.__name__ + obj.__qualname__ after importing the generated project; all compared with the model in Coq and with the ast oracle.',
+            'Coq kernel + vm_compute; proofs work on the flattened preorder scope table of the tree; corpus module dotted names are taken from jedi as model input.'),
 }
 
 NOT_YET = {
